@@ -223,8 +223,11 @@ func injectAssertionFault(r *rand.Rand, sp *saml2.SAMLServiceProvider, now time.
 		scd.NotOnOrAfter = v
 		return fault{"NotOnOrAfter malformed", VC("Parsing", VS("NotOnOrAfter"), VS(v))}
 	case 9:
-		// expired exactly at the boundary: now == NotOnOrAfter
+		// expired exactly at the boundary: now == NotOnOrAfter — or expired since year 1 (the instant Go's zero time.Time denotes)
 		v := renderInstant(r, now)
+		if r.Intn(6) == 0 {
+			v = pick(r, "0001-01-01T00:00:00Z", "0001-01-01T00:00:00.000Z", "0001-01-01T01:00:00+01:00")
+		}
 		scd.NotOnOrAfter = v
 		return fault{"NotOnOrAfter == now", inv("NotOnOrAfter", "Expired", "", v)}
 	case 10:
